@@ -15,6 +15,7 @@ import Exmex.Proofs.FlattenDefs
 import Exmex.Model.ValModel
 import Exmex.Model.Calc
 import Exmex.Model.Diff
+import Exmex.Generated.RuntimeTables
 import Exmex.Spec.Surface
 open Exmex
 
@@ -469,6 +470,119 @@ def showVR : VR Float → String
   | .ok v => showVal v
   | .error site => "PANIC:" ++ site
 
+/-! ### value-typed expressions (`parse_val`) -/
+
+/-- tiny backtracking regex engine (leftmost-first semantics, greedy quantifiers) -/
+inductive Re where
+  | ch (p : Char → Bool)
+  | seq (a b : Re)
+  | alt (a b : Re)
+  | star (a : Re)
+  | opt (a : Re)
+  | eps
+
+partial def Re.m : Re → Str → (Str → Option Str) → Option Str
+  | .ch p, c :: cs, k => if p c then k cs else none
+  | .ch _, [], _ => none
+  | .eps, s, k => k s
+  | .seq a b, s, k => a.m s (fun s' => b.m s' k)
+  | .alt a b, s, k => (a.m s k).orElse (fun _ => b.m s k)
+  | .opt a, s, k => (a.m s k).orElse (fun _ => k s)
+  | .star a, s, k =>
+    (a.m s (fun s' => if s'.length < s.length then (Re.star a).m s' k else none)).orElse (fun _ => k s)
+
+def reLit (w : String) : Re := w.toList.foldr (fun c acc => .seq (.ch (· == c)) acc) .eps
+def reSeq (l : List Re) : Re := l.foldr .seq .eps
+def reAlt : List Re → Re
+  | [] => .eps
+  | [a] => a
+  | a :: rest => .alt a (reAlt rest)
+def rePlus (a : Re) : Re := .seq a (.star a)
+def isSpaceChar (c : Char) : Bool := c == ' ' || c == '\t' || c == '\n' || c == '\r' || c.val == 11 || c.val == 12 || c.val == 0x85 || c.val == 0xA0 || c.val == 0x3000
+
+/-- `PATTERN` of value.rs:
+    `^([0-9]+(\.[0-9]+)?|true|false|\[\s*(\-?.?[0-9]+(\.[0-9]+)?|true|false)(\s*,\s*-?\.?[0-9]+(\.[0-9]+)?|true|false)*\s*\])` -/
+def valPattern : Re :=
+  let digit := Re.ch isAsciiDigit
+  let frac := Re.opt (.seq (.ch (· == '.')) (rePlus digit))
+  let ws := Re.star (.ch isSpaceChar)
+  let num := Re.seq (rePlus digit) frac
+  let first := reAlt [reSeq [.opt (.ch (· == '-')), .opt (.ch (· != '\n')), rePlus digit, frac], reLit "true", reLit "false"]
+  let more := reAlt [reSeq [ws, .ch (· == ','), ws, .opt (.ch (· == '-')), .opt (.ch (· == '.')), rePlus digit, frac], reLit "true", reLit "false"]
+  reAlt [num, reLit "true", reLit "false", reSeq [.ch (· == '['), ws, first, .star more, ws, .ch (· == ']')]]
+
+/-- `ValMatcher::is_literal`: length of the match at the start of the text -/
+def valLit (s : Str) : Option Nat := (valPattern.m s some).map (fun rest => s.length - rest.length)
+
+/-- decimal text to float as Rust's `str::parse::<f64>` (plain decimals only; anything else `none`) -/
+def parseDecimal (s : Str) : Option Float :=
+  let (neg, body) := match s with
+    | '-' :: r => (true, r)
+    | '+' :: r => (false, r)
+    | r => (false, r)
+  let ip := body.takeWhile isAsciiDigit
+  let rest := body.drop ip.length
+  let (fp, ok) := match rest with
+    | [] => ([], true)
+    | '.' :: r => (r, r.all isAsciiDigit)
+    | _ => ([], false)
+  if !ok || (ip.isEmpty && fp.isEmpty) then none else
+  let digits := ip ++ fp
+  let m := digits.foldl (fun acc c => acc * 10 + (c.toNat - 48)) 0
+  let x := Float.ofScientific m true fp.length
+  some (if neg then -x else x)
+
+def trimStr (s : Str) : Str := (s.dropWhile isSpaceChar).reverse.dropWhile isSpaceChar |>.reverse
+
+/-- `FromStr for Val` -/
+def valOfLit (s : Str) : Option (Val Float) :=
+  if s.contains '[' then
+    let inner := ((s.dropWhile (· == '[')).reverse.dropWhile (· == ']')).reverse
+    let parts := (String.ofList inner).splitOn ","
+    (parts.mapM (fun p => parseDecimal (trimStr p.toList))).map .arr
+  else if s.contains '.' then (parseDecimal s).map .flt
+  else if s == "true".toList then some (.bool true)
+  else if s == "false".toList then some (.bool false)
+  else
+    let (neg, body) := match s with | '-' :: r => (true, r) | '+' :: r => (false, r) | r => (false, r)
+    if body.isEmpty || !body.all isAsciiDigit then none else
+    let n : Int := body.foldl (fun acc c => acc * 10 + ((c.toNat - 48 : Nat) : Int)) 0
+    let v := if neg then -n else n
+    if inI32 v then some (.int v) else none
+
+def valTableModel : Table :=
+  Exmex.Generated.valTable.map (fun r =>
+    { repr := r.repr.toList, bin := r.bin.map (fun b => { prio := b.1, comm := b.2 }), unary := r.unary, const := r.const })
+
+def valConst (name : String) : Val Float :=
+  match name with
+  | "PI" | "π" => .flt 3.141592653589793
+  | "E" => .flt 2.718281828459045
+  | "TAU" | "τ" => .flt 6.283185307179586
+  | _ => .err
+
+def valInterp : Interp (Val Float) where
+  bin k a b := match valBin nativeFloatOps (String.ofList (reprOf valTableModel k)) a b with | .ok v => v | .error _ => .err
+  un k a := match valUn nativeFloatOps (String.ofList (reprOf valTableModel k)) a with | .ok v => v | .error _ => .err
+  const k := valConst (String.ofList (reprOf valTableModel k))
+  ofLit := valOfLit
+  dflt := .none
+
+/-- `valexpr <text> <vals: v;v;...>`: `parse_val(text)` then `eval(vals)` -/
+def doValexpr (f : List String) : String :=
+  match f with
+  | [tx, vs] =>
+    let text := unhex tx
+    let vals := if vs == "-" then [] else (splitOn vs "|").map parseVal
+    match Flat.parse valInterp valTableModel valLit text with
+    | .error e => "p=" ++ showFail e
+    | .ok fl =>
+      "p=ok\tvars=" ++ showStrs fl.vars ++ "\tr=" ++
+        (match fl.eval valInterp vals with
+          | .ok v => showVal v
+          | .error e => showFail e)
+  | _ => "BADREQ"
+
 /-- `valop <un|bin> <name> <val> [<val>]` -/
 def doValop (f : List String) : String :=
   match f with
@@ -596,6 +710,7 @@ def handle (line : String) : String :=
   | "damage" :: rest => doDamage rest
   | "crash" :: rest => doCrash rest
   | "valop" :: rest => doValop rest
+  | "valexpr" :: rest => doValexpr rest
   | "hist" :: rest => doHist rest
   | "order" :: rest => doOrder rest
   | "track" :: rest => doTrack rest
